@@ -214,8 +214,20 @@ func (svr *Service) Run(ctx context.Context) error {
 	return nil
 }
 
+// currentCtl returns the control of the current session, nil once the service has been stopped.
+func (svr *Service) currentCtl() *Control {
+	svr.ctlMu.RLock()
+	defer svr.ctlMu.RUnlock()
+	return svr.ctl
+}
+
 func (svr *Service) keepControllerWorking() {
-	<-svr.ctl.Done()
+	ctl := svr.currentCtl()
+	if ctl == nil {
+		// the service was closed right after the login
+		return
+	}
+	<-ctl.Done()
 
 	// There is a situation where the login is successful but due to certain reasons,
 	// the control immediately exits. It is necessary to limit the frequency of reconnection in this case.
@@ -225,8 +237,8 @@ func (svr *Service) keepControllerWorking() {
 		// loopLoginUntilSuccess is another layer of loop that will continuously attempt to
 		// login to the server until successful.
 		svr.loopLoginUntilSuccess(20*time.Second, false)
-		if svr.ctl != nil {
-			<-svr.ctl.Done()
+		if ctl := svr.currentCtl(); ctl != nil {
+			<-ctl.Done()
 			return false, errors.New("control is closed and try another loop")
 		}
 		// If the control is nil, it means that the login failed and the service is also closed.
